@@ -257,7 +257,11 @@ func (t *jT) attrs(prefix string) []string {
 		add("format", quoteJ5(t.StrFormat))
 	}
 	if t.Kind == kKey && t.KeyFmt == "custom" {
-		add("pattern", quoteJ5(t.KeyCustom))
+		if prefix == "" {
+			add("pattern", quoteJ5(t.KeyCustom))
+		} else {
+			add("format.custom.pattern", quoteJ5(t.KeyCustom)) // the ":custom" qualifier scopes only the field's own body
+		}
 	}
 	if r := t.Rules; r != nil {
 		if r.MinLen != nil {
@@ -416,7 +420,7 @@ func (r *j5Renderer) enumOptions(depth int, d *jDecl) {
 	for _, o := range d.Options {
 		info := d.OptInfo[o]
 		desc := d.OptDesc[o]
-		if len(info) == 0 {
+		if len(info) == 0 && !strings.Contains(desc, "\n") {
 			if desc != "" {
 				r.line(depth, "option "+o+" | "+desc)
 			} else {
